@@ -66,4 +66,19 @@ CHECKS = {
         need_classes=["role:acceptor", "role:initiator", "store-prepopulated", "resend-range-intersects-store", "idle-longer-than-max-interval"],
         assumptions=["the earlier session ran to completion before the unauthenticated connection starts (a session running in parallel is not generated)"],
     ),
+    "C16": dict(
+        level="exploration",
+        rule="table {Logon,Logout,Heartbeat,TestRequest,ResendRequest} x {wrong checksum, wrong body length, non-numeric numeric field, non-numeric MsgSeqNum alone or combined with wrong checksum, missing MsgSeqNum combined with wrong checksum/body length, not permitted in state} x {waiting for Logon (acceptor) / awaiting answer (initiator), logged on, after logout}, each cell with rapid-drawn surroundings (prefix traffic, buffer size, role, limits) and followed by valid traffic; REF assembles the damaged message so that exactly the intended damage is present; monitor: exactly one Reject referencing the offender (RefSeqNum, or RefTagID=34), IsLogged unchanged, session and handler not stopped, next valid message handled normally; non-trivial = the valid follow-up was delivered and judged; distinct by (role, type, damage, state, position)",
+        jobs=[dict(pkg="sess", test="TestC16", quick=8000, thorough=300000, shards=16)],
+        need_classes=["cell:A:.*", "cell:5:.*", "cell:0:.*", "cell:1:.*", "cell:2:.*", "cell:.*:state:.*", "cell:.*:noseq\\+checksum:.*", "cell:.*:logged", "cell:.*:waiting", "cell:.*:afterlogout"],
+        assumptions=["no idle time passes in these histories (so IsLogged is not affected by the test-request probe state)", "a message whose only defect is a missing MsgSeqNum is not generated (the library treats it as valid; the property names the tag only for messages invalid for another reason)"],
+    ),
+    "C10": dict(
+        level="exploration",
+        rule="logged-on sessions with an outbound prefix of 0-40 messages (fresh application messages, TestRequest answers, Rejects, timer Heartbeats) whose first transmissions are recorded per MsgSeqNum, then 1-6 ResendRequests over ranges inside / b=e / e=0 / partly or wholly beyond / b>e / b=0 / repeated; oracle: emitted messages are byte-identical to first[k] with k in range, and exactly first[b..e] (or first[b..last] for e=0) when 1<=b<=e<=last; second engine: Logon carrying MsgSeqNum r against a counter store whose last inbound number is c, for small and large (c,r): ResendRequest from c+1 iff r>c+1; non-trivial = >=3 messages sent before a request with b<e or e=0 (engine 1), r>c+1 (engine 2); distinct by (last,b,e) sequence / (role,c,r)",
+        jobs=[dict(pkg="sess", test="TestC10", quick=8000, thorough=300000, shards=16),
+              dict(pkg="sess", test="TestC10Gap", quick=4000, thorough=100000, shards=8)],
+        need_classes=["range:inside", "range:to-end", "range:beyond", "range:partly-beyond", "range:b>e", "range:b=0", "gap", "no-gap", "reused-message-object"],
+        assumptions=["application messages are fresh objects except in the explicit reuse class (5% of cases), see the known finding keyed resend-differs:reused-object"],
+    ),
 }
